@@ -25,9 +25,10 @@ run_demo() {
     rm -f "$R/$d/zz_seed_demo_test.go"
     return $rc
   elif [ -d "$SEED/demo" ]; then
-    mkdir -p "$R/tars/zz_seed_demo" && cp "$SEED"/demo/*.go "$R/tars/zz_seed_demo/"
-    (cd "$R/tars" && timeout 300 go run ./zz_seed_demo >"$WT/demo.log" 2>&1); rc=$?
-    rm -rf "$R/tars/zz_seed_demo"
+    sn=$(basename "$SEED")
+    mkdir -p "$R/$sn" && cp -r "$SEED/demo" "$R/$sn/demo"
+    (cd "$R" && timeout 600 go run "./$sn/demo" >"$WT/demo.log" 2>&1); rc=$?
+    rm -rf "$R/$sn"
     return $rc
   fi
   return 99
